@@ -5,13 +5,13 @@ CONSTANTS
   MaxRxns = 3
   GridSeq <- G_Four
   StateModes <- M_Pat
-  Patterns <- P_Few
+  Patterns <- P_One
   Extents <- X_Zero
   Deltas <- D_Few
   Factors <- F_Few
   Shifts <- S_Few
   PertKinds <- K_All
-  NumSyss <- N_Three
+  NumSyss <- N_Lin
   RrefFlags <- FL_Two
 INVARIANT TypeOK
 INVARIANT BackwardConstructionIsEquilibrium
